@@ -444,14 +444,15 @@ def ChunkAt (oct : Bytes) (a k : Nat) : Prop :=
 
 /-- how names are compared in a mode: octet for octet in `CasePreserving`, ignoring ASCII case
     otherwise -/
-def effMode (m : CMode) : CMode := if m = .casePreserving then .casePreserving else .standard
+def effMode (m : CMode) : CMode := if m = .standard then .standard else .casePreserving
 
-theorem labelsMatch_eff {m : CMode} {a b : List Label} (h : labelsMatch m a b = true) :
+theorem labelsMatch_eff {m : CMode} {a b : List Label} (hm : m ≠ .disabled) (h : labelsMatch m a b = true) :
     labelsMatch (effMode m) a b = true := by
   unfold effMode
-  split
-  · rename_i hm; rw [hm] at h; exact h
-  · exact labelsMatch_std h
+  cases m with
+  | standard => simpa using h
+  | casePreserving => simpa using h
+  | disabled => exact absurd rfl hm
 
 /-- what a name-writing routine guarantees when it starts from a valid state `s` and is given the
     name `n`: it does not panic; on success the state is valid again, the anchors it does not
@@ -752,7 +753,8 @@ theorem wireTo_lt (n : WName) (k : Nat) (h : k < n.labels.length) :
   unfold WName.wireTo WName.len
   rw [if_neg (by omega)]
 
-theorem writeCompressedUnhintedName_spec (n : WName) (s : State) (h : WInv s) (hn : n.WF) :
+theorem writeCompressedUnhintedName_spec (n : WName) (s : State) (h : WInv s) (hn : n.WF)
+    (hnd : s.mode ≠ .disabled) :
     NameSpec s n (writeCompressedUnhintedName n s) := by
   have hav := h.cur_av; have hsz := h.av_size
   have hA : ∀ p, (s.mostRecentOwner.orElse fun _ => s.qname) = some p → PriorOK (GL s) s.octets s.cursor p := by
@@ -786,7 +788,7 @@ theorem writeCompressedUnhintedName_spec (n : WName) (s : State) (h : WInv s) (h
                 (by have : (ptrBytes m.priorPointer).length = 2 := rfl; omega))
           (by simp [pushed, encLen]; rfl) (by simp [pushed, labelStartsFrom]) rfl rfl rfl (fun hne => absurd rfl hne)
         refine ⟨hw, ?_, rfl, rfl, rfl, ⟨ls, by simpa using hrd,
-          labelsMatch_eff (by have := hmatch; rw [hk0] at this; simpa using this)⟩, hck⟩
+          labelsMatch_eff hnd (by have := hmatch; rw [hk0] at this; simpa using this)⟩, hck⟩
         intro q hq
         rw [← hp] at hq
         cases hq
@@ -848,7 +850,7 @@ theorem writeCompressedUnhintedName_spec (n : WName) (s : State) (h : WInv s) (h
           refine ⟨hw, ?_, by simp only [pushed]; rw [← hs2]; rfl, by simp only [pushed]; rw [← hs2]; rfl,
             by simp only [pushed]; rw [← hs2]; rfl, ⟨_, hrd, by
               have := labelsMatch_append (mode := effMode s.mode)
-                (labelsMatch_refl _ (List.take m.startColumn n.labels)) (labelsMatch_eff hmatch)
+                (labelsMatch_refl _ (List.take m.startColumn n.labels)) (labelsMatch_eff hnd hmatch)
               rwa [List.take_append_drop] at this⟩, hck⟩
           intro q' hq'
           rw [← hp] at hq'
@@ -873,11 +875,11 @@ theorem writeUnhintedName_spec (n : WName) (s : State) (h : WInv s) (hn : n.WF) 
   unfold writeUnhintedName
   simp only [M.bind_apply, M.gets_apply]
   split
-  · exact writeCompressedUnhintedName_spec n s h hn
+  · rename_i hc; exact writeCompressedUnhintedName_spec n s h hn hc.1
   · exact writeUncompressedName_spec n s h hn
 
 theorem pushHinted_spec (q : Prior) (n : WName) (s : State) (h : WInv s) (hd : Den s q n)
-    (hm : s.mode ≠ .casePreserving) :
+    (hm : s.mode = .standard) :
     NameSpec s n (pushHinted q s) := by
   have hav := h.cur_av; have hsz := h.av_size
   have e := frame_pushHinted q s
@@ -896,7 +898,7 @@ theorem pushHinted_spec (q : Prior) (n : WName) (s : State) (h : WInv s) (hd : D
       (by simpa [pushed] using bytesAt_writeAt s.octets s.cursor (ptrBytes q.ptr)
             (by have : (ptrBytes q.ptr).length = 2 := rfl; omega))
       (by simp [pushed, encLen]; rfl) (by simp [pushed, labelStartsFrom]) rfl rfl rfl (fun hne => absurd rfl hne)
-    refine ⟨hw, ?_, rfl, rfl, rfl, ⟨ls, by simpa using hrd, by unfold effMode; rw [if_neg hm]; exact hmt⟩, hck⟩
+    refine ⟨hw, ?_, rfl, rfl, rfl, ⟨ls, by simpa using hrd, by unfold effMode; rw [if_pos hm]; exact hmt⟩, hck⟩
     intro q' hq'
     rw [← hp] at hq'
     cases hq'
@@ -918,31 +920,38 @@ theorem writeHintedName_spec (hint : Hint) (n : WName) (s : State) (h : WInv s) 
   simp only [M.bind_apply, M.gets_apply]
   split
   · exact writeUncompressedName_spec n s h hn
-  · split
-    · exact writeCompressedUnhintedName_spec n s h hn
-    · rename_i hncp
+  · rename_i hnd0
+    have hnd : s.mode ≠ .disabled := fun hc => hnd0 (Or.inl hc)
+    split
+    · exact writeCompressedUnhintedName_spec n s h hn hnd
+    · rename_i hncp0
+      have hncp : s.mode = .standard := by
+        cases hmm : s.mode with
+        | standard => rfl
+        | casePreserving => exact absurd hmm hncp0
+        | disabled => exact absurd hmm hnd
       cases hint with
       | qname =>
         simp only [M.bind_apply, M.gets_apply]
         cases hq : s.qname with
-        | none => exact writeCompressedUnhintedName_spec n s h hn
+        | none => exact writeCompressedUnhintedName_spec n s h hn hnd
         | some q => exact pushHinted_spec q n s h (hh q hq) hncp
       | mostRecentOwner =>
         simp only [M.bind_apply, M.gets_apply]
         cases hq : s.mostRecentOwner with
-        | none => exact writeCompressedUnhintedName_spec n s h hn
+        | none => exact writeCompressedUnhintedName_spec n s h hn hnd
         | some q => exact pushHinted_spec q n s h (hh q hq) hncp
       | mostRecentNameInRdata =>
         simp only [M.bind_apply, M.gets_apply]
         cases hq : s.mostRecentNameInRdata with
-        | none => exact writeCompressedUnhintedName_spec n s h hn
+        | none => exact writeCompressedUnhintedName_spec n s h hn hnd
         | some q => exact pushHinted_spec q n s h (hh q hq) hncp
       | explicit p =>
         simp only [M.bind_apply, M.gets_apply]
         split
         · rename_i hp; exact pushHinted_spec _ n s h (hh hp) hncp
-        · exact writeCompressedUnhintedName_spec n s h hn
-      | none => exact writeCompressedUnhintedName_spec n s h hn
+        · exact writeCompressedUnhintedName_spec n s h hn hnd
+      | none => exact writeCompressedUnhintedName_spec n s h hn hnd
 
 
 end QV.Writer
